@@ -270,12 +270,21 @@ func cmdCheck(args []string) int {
 			if o.Kind == engine.KindCover {
 				nCover++
 				harnessFailed := false
+				anyCovered := false
 				for _, x := range r.Obls {
 					if x.Status == "failed" {
 						harnessFailed = true
 					}
+					if x.Kind == engine.KindCover && x.Status == "covered" {
+						anyCovered = true
+					}
 				}
-				if o.Status != "covered" && !harnessFailed {
+				if !strings.HasSuffix(o.Name, "#cover:end") {
+					nCover-- // one vacuity guard per harness: it holds if any end state is reachable
+					evObls = append(evObls, ev)
+					continue
+				}
+				if !anyCovered && !harnessFailed {
 					path := writeReplay(*replayDir, *prop, o.Name, "vacuity guard failed: "+o.Msg+" status="+o.Status, o)
 					violLines = append(violLines, fmt.Sprintf("VIOLATION property=%s replay=%s obligation=%s vacuous-or-undecided-cover no-failing-input-found", *prop, path, o.Name))
 					nViol++
